@@ -50,6 +50,21 @@ def list_index(list l, Py_ssize_t i):
 
 def tuple_slice(tuple t, a, b):
     return t[a:b]
+
+def list_slice(list l, a, b):
+    return l[a:b]
+
+def kw_merge(f, d1, d2):
+    return f(**d1, **d2)
+
+def fmt_i(int x):
+    return (f"{x:05d}", f"{x:>8d}", f"{x:<6}|", f"{x:x}", f"{x:08X}", f"{x}", f"{x:3}", f"{x:03}", f"{x:012d}", '%5d' % x, '%-6d|' % x, "%05d" % x, "%x" % x, str(x))
+
+def fmt_l(long long x):
+    return (f"{x:05d}", f"{x:>24d}", f"{x:<6}|", f"{x:x}", f"{x:020X}", f"{x}", f"{x:022d}", '%25d' % x, "%021d" % x, str(x))
+
+def fmt_u(unsigned int x):
+    return (f"{x:05d}", f"{x:>12d}", f"{x:o}", f"{x:012x}", f"{x}", "%012d" % x)
 '''
 
 
@@ -71,9 +86,25 @@ def model(fn, args):
         return list(args[0])[args[1]:args[2]:args[3]]
     if fn in ("mv_index", "str_index", "bytes_index", "list_index"):
         return args[0][args[1]]
-    if fn in ("str_slice", "tuple_slice"):
+    if fn in ("str_slice", "tuple_slice", "list_slice"):
         return args[0][args[1]:args[2]]
+    if fn == "kw_merge":
+        return _kwf(**args[1], **args[2])
+    if fn == "fmt_i":
+        return (f"{x:05d}", f"{x:>8d}", f"{x:<6}|", f"{x:x}", f"{x:08X}", f"{x}", f"{x:3}", f"{x:03}", f"{x:012d}", '%5d' % x, '%-6d|' % x, "%05d" % x, "%x" % x, str(x))
+    if fn == "fmt_l":
+        return (f"{x:05d}", f"{x:>24d}", f"{x:<6}|", f"{x:x}", f"{x:020X}", f"{x}", f"{x:022d}", '%25d' % x, "%021d" % x, str(x))
+    if fn == "fmt_u":
+        return (f"{x:05d}", f"{x:>12d}", f"{x:o}", f"{x:012x}", f"{x}", "%012d" % x)
     raise ValueError(fn)
+
+
+def _kwf(**k):
+    return sorted(k)
+
+
+def _kwdict(pairs):
+    return {(tuple(k) if isinstance(k, list) else k): v for k, v in pairs}
 
 
 def cases(seed):
@@ -104,6 +135,22 @@ def cases(seed):
             for b in rng_pos:
                 out.append(["str_slice", ["abcdef"[:n], a, b]])
                 out.append(["tuple_slice", [vals, a, b]])
+                out.append(["list_slice", [vals, a, b]])
+    # ** merging of two mappings: duplicate / non-string / mixed keys (pairs; list keys stand for tuples)
+    kws = [[["a", 1]], [["a", 2], ["b", 3]], [[1, 2]], [[1, 3], [2, 4]], [[[1, 2], 3]], [[None, 1]], [], [["b", 1], [1, 2]], [[2.5, 1]]]
+    for d1 in kws:
+        for d2 in kws:
+            out.append(["kw_merge", [d1, d2]])
+    small = [0, 1, -1, 7, -7, 42, -42, 999, -999, 12345, -12345, 99999, -99999, 2 ** 31 - 1, -2 ** 31, 1000000, -1000000] + [rng.randrange(-2 ** 31, 2 ** 31) for _ in range(12)]
+    for v in small:
+        out.append(["fmt_i", [v]])
+        out.append(["fmt_l", [v]])
+        if v >= 0:
+            out.append(["fmt_u", [v]])
+    for v in [2 ** 63 - 1, -2 ** 63, 2 ** 40 + 3, -2 ** 40 - 3, 10 ** 18, -10 ** 18] + [rng.randrange(-2 ** 63, 2 ** 63) for _ in range(12)]:
+        out.append(["fmt_l", [v]])
+    for v in [2 ** 32 - 1, 2 ** 31, 4000000000]:
+        out.append(["fmt_u", [v]])
     return out
 
 
@@ -114,6 +161,8 @@ def to_args(fn, args):
         return [args[0].encode(), args[1]]
     if fn == "tuple_slice":
         return [tuple(args[0])] + list(args[1:])
+    if fn == "kw_merge":
+        return [_kwf, _kwdict(args[0]), _kwdict(args[1])]
     return list(args)
 
 
@@ -139,14 +188,33 @@ def run_all(so, name, seed):
     return out
 
 
+def run_case(so, name, case):
+    mod = build.load_ext(name, so)
+    fn, args = case
+    try:
+        return ["value", norm(getattr(mod, fn)(*to_args(fn, args)))]
+    except BaseException as e:
+        return ["raise", type(e).__name__]
+
+
+def model_case(case):
+    return model_list([case])[0]
+
+
 def model_all(seed):
+    return model_list(cases(seed))
+
+
+def model_list(cs):
     out = []
-    for fn, args in cases(seed):
+    for fn, args in cs:
         a = list(args)
         if fn == "bytes_index":
             a = [args[0].encode(), args[1]]
         if fn == "tuple_slice":
             a = [tuple(args[0])] + list(args[1:])
+        if fn == "kw_merge":
+            a = [_kwf, _kwdict(args[0]), _kwdict(args[1])]
         try:
             out.append(["value", norm(model(fn, a))])
         except BaseException as e:
